@@ -217,6 +217,10 @@ def main(replay=None):
         ri, rm = parse_out(il), parse_out(ml)
         wanted = ALL.split(",") if c["routes"] == "ALL" else c["routes"].split(",")
         nontrivial = False
+        if "ANY" in ri:
+            pending.append((idx, "one of the routes %s ends in %s (failure not attributed to a route: more than 25 failing cases in this "
+                            "harness process)" % (c["routes"], ri["ANY"][0]), rep_of(c, il, ml, route="ANY")))
+            continue
         for route in wanted:
             stats["routes_run"] += 1
             f = ri.get(route)
